@@ -86,6 +86,7 @@ def run(ck):
     ck.rule("R3", "each back end re-checks code ranges after a memory-accessing instruction and leaves the block on a VM flag", floor=6)
     ck.rule("R4", "a translated block is registered and its address range pushed to the VM", floor=4)
     ck.rule("R5", "an EXCEPT_CODE_AUTOMOD handler drops the modified translations and clears the flag", floor=3)
+    ck.rule("R7", "the recorded write list is cleared only by code that has consumed it (get_memory_write) on every path to the reset", floor=2)
     ck.rule("R6", "del_block_in_range removes translation and block entry of every overlapping block; ranges rebuilt", floor=6)
 
     # ------------------------------------------------------------------ R1
@@ -417,11 +418,35 @@ def run(ck):
     cs = [dotted(c.func) for c in walk_body(fn) if isinstance(c, ast.Call)]
     loop_ok = any(isinstance(n, ast.For) and norm(n.iter) == fn.args.args[2].arg and any(
         isinstance(c, ast.Call) and dotted(c.func) == "self.del_block_in_range" for c in walk_local(n)) for n in walk_body(fn))
-    ok = loop_ok and any(c and c.endswith("updt_jitcode_mem_range") for c in cs) and "vm.reset_memory_access" in cs
+    ok = loop_ok and any(c and c.endswith("updt_jitcode_mem_range") for c in cs)
     ck.ob("R6", "updt_automod_code_range", ok, jc.where(fn),
-          "every range must be passed to del_block_in_range, the VM code ranges refreshed and the access log reset")
+          "every range must be passed to del_block_in_range and the VM code ranges refreshed")
     fn = jc.func("JitCore.updt_automod_code")
     res = Resolver(fn)
     ok = any(isinstance(n, ast.For) and norm(n.iter) == "vm.get_memory_write()" for n in walk_body(fn)) and \
         any(isinstance(c, ast.Call) and dotted(c.func) == "self.updt_automod_code_range" for c in walk_body(fn))
     ck.ob("R6", "updt_automod_code", ok, jc.where(fn), "recorded memory writes are not all handed to updt_automod_code_range")
+
+    # ------------------------------------------------------------------ R7
+    # who clears the recorded writes: in the translation-cache layer (jitcore.py, jitload.py) a reset_memory_access() must be
+    # preceded on every path by get_memory_write() in the same function; a helper that invalidates an explicit range
+    # (breakpoint placement) may not clear writes it has not looked at
+    n7 = 0
+    for mod in (jc, jl):
+        for q, f2 in sorted(mod.funcs.items()):
+            resets = [c for c in walk_body(f2) if isinstance(c, ast.Call) and isinstance(c.func, ast.Attribute) and c.func.attr == "reset_memory_access"]
+            if not resets:
+                continue
+            cfg2 = CFG(f2)
+            for c in resets:
+                n7 += 1
+                tg = [nd.id for nd in cfg2.node_containing(c)]
+                res2 = cfg2.must_pass(lambda nd: any(isinstance(x.func, ast.Attribute) and x.func.attr == "get_memory_write" for x in node_calls(nd)), targets=tg)
+                ck.ob("R7", "%s:reset-after-consume" % q, bool(tg) and all(res2.values()), mod.where(c),
+                      "%s clears the recorded memory writes without having read them: a host write recorded before this call "
+                      "is forgotten while EXCEPT_CODE_AUTOMOD stays pending, and the stale translation runs" % q)
+    consumer = jc.func("JitCore.updt_automod_code")
+    ok = any(isinstance(c, ast.Call) and isinstance(c.func, ast.Attribute) and c.func.attr == "reset_memory_access" for c in walk_body(consumer))
+    ck.ob("R7", "JitCore.updt_automod_code:clears-consumed", ok, jc.where(consumer),
+          "nobody clears the consumed write list: every later exception handling re-invalidates the same ranges")
+
